@@ -99,8 +99,55 @@ def run_one_slot(bank, path, slot):
         shutil.rmtree(d, ignore_errors=True)
 
 
+def verify_tests(path, slot):
+    """Does the patched tree still compile and pass the repository's 142 tests?"""
+    d, dst = scratch_copy()
+    try:
+        r = subprocess.run(["patch", "-p1", "-s", "--no-backup-if-mismatch", "-i", path], cwd=dst, capture_output=True, text=True)
+        if r.returncode != 0:
+            return {"applies": False}
+        env = dict(os.environ, CARGO_NET_OFFLINE="true", CARGO_TARGET_DIR=os.path.join(VERIF, ".cache", f"target-verify-{slot}"))
+        c = subprocess.run("cargo test --offline 2>&1 | grep -E '^test result|^error' | head -8", shell=True, cwd=dst, env=env, capture_output=True, text=True)
+        out = c.stdout
+        passed = sum(int(x) for x in re.findall(r"(\d+) passed", out))
+        failed = sum(int(x) for x in re.findall(r"(\d+) failed", out))
+        return {"applies": True, "compiles": "error" not in out and passed + failed > 0, "passed": passed, "failed": failed}
+    finally:
+        shutil.rmtree(d, ignore_errors=True)
+
+
+def main_verify(subs, jobs):
+    work = []
+    bd = os.path.join(HERE, "violations")
+    for f in sorted(os.listdir(bd)):
+        if f.endswith(".patch") and (not subs or any(s in f for s in subs)):
+            work.append(os.path.join(bd, f))
+    status_path = os.path.join(HERE, "tests_status.json")
+    status = json.load(open(status_path)) if os.path.exists(status_path) else {}
+    for k in range(jobs):
+        SLOTS.put(k)
+
+    def one(path):
+        slot = SLOTS.get()
+        try:
+            return os.path.basename(path), verify_tests(path, slot)
+        finally:
+            SLOTS.put(slot)
+
+    with concurrent.futures.ThreadPoolExecutor(max_workers=jobs) as ex:
+        for name, st in ex.map(one, work):
+            status[name] = st
+            print(name, st, flush=True)
+            with open(status_path, "w") as fh:
+                json.dump(status, fh, indent=1, sort_keys=True)
+    return 0
+
+
 def main():
     args = sys.argv[1:]
+    if args and args[0] == "--verify-tests":
+        rest = [a for a in args[1:] if not a.startswith("--")]
+        return main_verify(rest, 6)
     bank = "all"
     jobs = 8
     subs = []
